@@ -77,10 +77,18 @@ func install(b *mocker.Builder, cfg seqCfg, iv *I) func(key int) int {
 		}
 		return x
 	}
+	whenArgs := func(k int) []interface{} {
+		if cfg.form == "funcv" {
+			return []interface{}{100 + k, 1, 2} // fixed parameter and two variadic elements
+		}
+		return []interface{}{100 + k}
+	}
 	switch cfg.form {
-	case "func", "method", "iface":
+	case "func", "method", "iface", "funcv":
 		var m mocker.ExportedMocker
 		switch cfg.form {
+		case "funcv":
+			m = b.Func(SV)
 		case "func":
 			m = b.Func(S1)
 		case "method":
@@ -97,9 +105,9 @@ func install(b *mocker.Builder, cfg seqCfg, iv *I) func(key int) int {
 		}
 		for _, k := range keys {
 			if w == nil {
-				w = m.When(100 + k)
+				w = m.When(whenArgs(k)...)
 			} else {
-				w = w.When(100 + k)
+				w = w.When(whenArgs(k)...)
 			}
 			if cfg.andForm[k] {
 				w = chain(w.Return, k, false)
@@ -135,6 +143,11 @@ func install(b *mocker.Builder, cfg seqCfg, iv *I) func(key int) int {
 			arg = 100 + key
 		}
 		switch cfg.form {
+		case "funcv":
+			if key >= 0 {
+				return SV(arg, 1, 2)
+			}
+			return SV(arg, 3)
 		case "func":
 			return S1(arg)
 		case "method":
@@ -166,7 +179,7 @@ func TestC05Sequential(t *testing.T) {
 	shard, _ := vmon.Shard()
 	rng := vmon.NewRng(vmon.Seed(), uint64(500+shard))
 	n := vmon.EnvInt("VERIF_C05_SEQ", 300)
-	forms := []string{"func", "method", "iface", "func2"}
+	forms := []string{"func", "method", "iface", "func2", "funcv"}
 	for c := 0; c < n; c++ {
 		form := forms[c%len(forms)]
 		dupOn = c%2 == 1
